@@ -231,7 +231,8 @@ int main(void)
 				for (i = 0; i < len / 2; ++i) pat[i] = (uint16_t)(p[2 * i] * 256 + p[2 * i + 1]);
 				pat[len / 2] = 0;
 				if (srch) vbi_search_delete(srch);
-				srch = vbi_search_new(dec, (vbi_pgno) a, (vbi_subno) b, pat, (vbi_bool) c, (vbi_bool) d, NULL);
+				srch = (a >= 0x100 && a <= 0x8FF) /* documented page number range */
+					? vbi_search_new(dec, (vbi_pgno) a, (vbi_subno) b, pat, (vbi_bool) c, (vbi_bool) d, NULL) : NULL;
 				free(pat); free(p);
 			}
 			printf("ok\n");
